@@ -348,6 +348,39 @@ def _ret_kinds(ctx, f, ret):
     return _result_kinds(ctx.fb(), f, ret.node.get("v"))
 
 
+def _count_guards(fb, f, counter=IMPL + "::activeConnects"):
+    """[(declaration element, variable)]: the RAII locals of f that count the caller in `counter` for the teardown gate.  Recognised by what
+    they do, not by the name of their type: the local has a destructor, its initialiser is handed the counter, and the function that
+    builds it (the guard's constructor, or a function returning a scope guard) increments what it was handed.  The matching decrement
+    in the destructor and the lock it needs are C05-R4's clause."""
+    out = []
+    for e in f.stmts():
+        if e.node.get("k") != "decl":
+            continue
+        for v in e.node["vars"]:
+            init = v.get("init")
+            if not isinstance(init, dict) or not any(x.get("k") == "member" and x.get("n") == counter for x in walk(init)):
+                continue
+            if not any(d.kind == "dtor" and d.raw.get("d") == v["d"] for d in f.elems()):
+                continue        # a plain copy of the counter, not an RAII object
+            i = strip_wrappers(init)
+            while i is not None and i.get("k") == "ctor" and i.get("copy") and len([a for a in i.get("args", []) if not a.get("def")]) == 1:
+                i = strip_wrappers([a for a in i["args"] if not a.get("def")][0])
+            if i is None or i.get("k") not in ("ctor", "call", "mcall"):
+                raise AnalysisBroken("%s: cannot tell what builds the guard `%s`" % (short(f.name), v["n"]))
+            name = i.get("callee") if i["k"] != "ctor" else None
+            if i["k"] == "ctor":
+                t = (i.get("t") or v.get("t") or "").replace("const ", "").strip()
+                name = t + "::<ctor>"
+            gs = [g for g in fb.by_name.get(name, []) if g.ok]
+            if not gs:
+                raise AnalysisBroken("%s: the body of %s, which builds the guard `%s`, is not available" % (short(f.name), short(name or "?"), v["n"]))
+            if any(n.get("k") == "un" and "++" in (n.get("op") or "") or n.get("k") in ("bin", "opcall") and n.get("op") == "+=" or
+                   n.get("k") == "mcall" and last(n.get("callee", "")) == "fetch_add" for g in gs for n in g.nodes.values()):
+                out.append((e, v))
+    return out
+
+
 def r1(ctx, r):
     f, la = _cs(ctx), c03._la(ctx)
     conns = [e for e in _engine_call(f, "connect") if la.mutexes(f, e)]   # the UDP shortcut runs before any lock
@@ -368,12 +401,12 @@ def r1(ctx, r):
                  okdesc="engine->connect … wait_for under one continuous syncMutex hold")
         stores = [e for e in f.stmts() if e.node.get("k") == "opcall" and e.node.get("op") == "=" and
                   (access_path(e.node["args"][0]) or ("", ""))[-2:] == (IMPL + "::pendingConnects", "[]")]
-        guards = [e for e in f.stmts() if e.node.get("k") == "decl" and any(v["t"].endswith("ParkGuard") for v in e.node["vars"])]
+        guards = [e for (e, v) in _count_guards(ctx.fb(), f)]
         r.instance()
         r.expect(any(elem_dominates(f, c, s) and elem_dominates(f, s, wait) for s in stores), f, c, "waiter not registered",
                  "pendingConnects[sid] is not stored between engine->connect() and the wait", okdesc="pendingConnects[sid] = op between connect and wait")
         r.instance()
-        g_ok = [g for g in guards if elem_dominates(f, c, g) and elem_dominates(f, g, wait) and "activeConnects" in show(g.node)]
+        g_ok = [g for g in guards if elem_dominates(f, c, g) and elem_dominates(f, g, wait)]
         r.expect(bool(g_ok), f, c, "waiter not counted", "no ParkGuard on activeConnects is constructed between engine->connect() and the wait: teardown would not wait for this caller",
                  okdesc="ParkGuard(activeConnects) between connect and wait")
 
@@ -566,11 +599,23 @@ def r4b(ctx, r):
 def r5(ctx, r):
     f, la = _cs(ctx), c03._la(ctx)
     wait = _wait(f)
-    vocab = Vocab(["done", "closed_issued"])
+    vocab = Vocab(["done", "closed_issued", "shutting"])
+    fb = ctx.fb()
 
     def leaf(n):
         if n.get("k") == "member" and n["n"] == SCO + "::done":
             return A("done")
+        if n.get("k") == "member" and n["n"] == IMPL + "::shuttingDown":
+            return A("shutting")
+        # the value of a predicated condition-variable wait is the predicate's final value, evaluated under the re-acquired lock:
+        # `const bool signalled = cv.wait_for(lk, t, pred)` / `if (cv.wait_for(...))` is read as the predicate's return expression
+        if n.get("k") == "mcall" and n.get("callee", "").startswith("std::condition_variable") and last(n["callee"]) in common.CV_WAIT:
+            args = [a for a in n.get("args", []) if not a.get("def")]
+            if len(args) >= {"wait": 2, "wait_for": 3, "wait_until": 3}[last(n["callee"])]:
+                pl = common._resolve_pred(fb, f, args[-1])
+                rets = common.returns(pl) if pl is not None and pl.ok else []
+                if len(rets) == 1 and rets[0].node.get("v") is not None:
+                    return total(translate(rets[0].node["v"], leaf))
         return None
     closes = _engine_call(f, "close")
 
@@ -581,7 +626,7 @@ def r5(ctx, r):
             return [("set", "closed_issued", True)]
         n = e.node
         if n.get("k") == "mcall" and (n.get("callee") == "std::unique_lock::unlock" or n.get("callee", "").startswith("std::condition_variable")):
-            return [("havoc", "done")]
+            return [("havoc", "done"), ("havoc", "shutting")]
         return None
     pa = PredAbs(f, vocab, leaf, eff, init=Not(A("closed_issued")), track_bools=True)
     # success returns: what the returned value is built from (the record's stored result, or Result::ok), looked through locals and helpers
@@ -594,6 +639,16 @@ def r5(ctx, r):
                  "connectSync can return the operation's result although the completion flag was not seen set, or after it has already issued engine->close() for that "
                  "session (known: %s): the caller would get a live-looking id for a session the transport closed" % ",".join(pa.describe(e)),
                  okdesc="result returned only when op->done and before any engine->close")
+    # "a timed-out attempt leaves no open connection behind": every way out after the wait has seen the completion (the result is the
+    # caller's business now), has seen the teardown fence (the drain closes the session), or has issued the close itself.  Decided on the
+    # abstraction, so it holds however the tail is arranged (sequential ifs, one branch on the wait's value, a conditional return)
+    for e in common.returns(f):
+        if elem_dominates(f, wait, e):
+            r.instance()
+            r.expect(pa.entails(e, Or(A("done"), A("shutting"), A("closed_issued"))), f, e, "gives up without closing",
+                     "connectSync can return at line %s after the wait with the connect neither completed nor the transport shutting down and without having issued engine->close(sid) "
+                     "(known: %s): the attempt stays in flight, and if it completes later an open connection nobody owns is left behind" % (e.line, ",".join(pa.describe(e)) or "nothing"),
+                     okdesc="return at line %s: completed, shutting down, or closed" % e.line)
     # timeout path: close is issued with the lock released, lock re-acquired before the guard dies
     r.instance()
     r.expect(len(closes) == 1, f, None, "timeout close", "connectSync issues engine->close() at %d sites, expected exactly one (timeout path)" % len(closes), okdesc="one timeout-path close")
@@ -607,8 +662,12 @@ def r5(ctx, r):
                  "the timeout path releases the lock to close the session although the connect was seen completed (op->done) in that critical section",
                  okdesc="timeout close only when !op->done was seen before releasing the lock")
     # ParkGuard destructor runs under the lock on every path
+    # (the guard is the RAII local that counts this caller in activeConnects, whatever its type is called: _count_guards)
+    gds = {v["d"] for (ge, v) in _count_guards(ctx.fb(), f)}
+    if not gds:
+        raise AnalysisBroken("connectSync: no RAII local that counts the caller in activeConnects was recognised: the clauses about the guard's lifetime cannot be judged")
     for e in f.elems():
-        if e.kind == "dtor" and e.raw.get("t", "").endswith("ParkGuard"):
+        if e.kind == "dtor" and e.raw.get("d") in gds:
             r.instance()
             r.expect(la.holds(f, e, SYNC), f, e, "ParkGuard dies without lock", "the ParkGuard destructor (counter decrement) runs on a path where syncMutex is not held",
                      okdesc="~ParkGuard under syncMutex (line %s)" % e.line)
@@ -673,8 +732,29 @@ def _unctor(n):
     return n
 
 
+def _local_lambda(fb, f, n):
+    """the Function of the local lambda of f that the call expression n invokes (None if n is no such call)"""
+    if n is None or n.get("k") != "opcall" or n.get("op") != "()":
+        return None
+    for lf in fb.by_name.get(n.get("callee", ""), []):
+        if lf.ok and lf.kind == "lambda" and lf.enclosing is f:
+            return lf
+    return None
+
+
+def _captured_decl(g, x):
+    """the declaration, in the enclosing function, of a variable the lambda g captures (matched through the capture list)"""
+    if g.kind != "lambda" or g.enclosing is None:
+        return None, None
+    for c in getattr(g, "lambda_node", {}).get("caps", []):
+        if c.get("n") == x.get("n") and c.get("d") is not None:
+            return g.enclosing, _decls(g.enclosing).get(c["d"])
+    return None, None
+
+
 def _const_duration(f, n, depth=0):
-    """the compile-time constant a duration expression stands for: a literal, a duration constructed from one, or a const local so initialised"""
+    """the compile-time constant a duration expression stands for: a literal, a duration constructed from one, or a const local so
+    initialised (also when the local belongs to the enclosing function and is captured by the lambda f)"""
     n = _unctor(n)
     if n is None:
         return None
@@ -682,17 +762,72 @@ def _const_duration(f, n, depth=0):
         return n["cv"]
     if n.get("k") == "var" and depth < 3 and n.get("parm") is None and "const" in (n.get("t") or ""):
         v = _decls(f).get(n.get("d"))
+        if v is None or v["n"] != n.get("n"):
+            f, v = _captured_decl(f, n)
         if v is not None and isinstance(v.get("init"), dict):
             return _const_duration(f, v["init"], depth + 1)
     return None
 
 
+def _pure_bool_lambdas(fb, f, leaf):
+    """leaf extended so that a condition `pred(x)` on a local lambda that is one `return <expression>` is read as that expression
+    (extract-to-local-lambda of a repeated test).  Atoms of these rules do not depend on which variable is tested, so the lambda's
+    parameter stands for the argument."""
+    def leaf2(n):
+        r = leaf(n)
+        if r is not None:
+            return r
+        lf = _local_lambda(fb, f, n)
+        if lf is not None:
+            rets = common.returns(lf)
+            roots = [e for e in lf.stmts() if "root" in e.raw]
+            if len(rets) == 1 and len(roots) == 1 and rets[0].node.get("v") is not None:
+                return translate(rets[0].node["v"], leaf2)
+        return None
+    return leaf2
+
+
+def _attempts(fb, f):
+    """where connectSyncCancellable starts a connectSync: [(site element in f, function holding the call, the connectSync call element,
+    the site's call node when the call sits in a local lambda)].  A local lambda that calls connectSync makes each of its invocations a site."""
+    def direct(g):
+        return [e for e in g.stmts() if e.node.get("k") == "mcall" and last(e.node.get("callee", "")) == "connectSync"]
+    out = [(e, f, e, None) for e in direct(f)]
+    for e in f.stmts():
+        lf = _local_lambda(fb, f, e.node)
+        if lf is not None:
+            for c in direct(lf):
+                out.append((e, lf, c, e.node))
+    # a connectSync call in a lambda of f that is never invoked by name here (stored, passed on) is a shape the rules do not follow
+    for (ln, lf) in f.lambdas:
+        if lf.ok and direct(lf) and not any(g is lf for (_, g, _, _) in out):
+            raise AnalysisBroken("%s: connectSync is called in a lambda (%s) that is not invoked as a local here" % (short(f.name), short(lf.name)))
+    return out
+
+
+def _defs_of(g, t):
+    """the values a local of g receives: initialiser and assignments"""
+    defs = []
+    for e in g.stmts():
+        n = e.node
+        if n.get("k") == "decl":
+            for v in n["vars"]:
+                if v["d"] == t.get("d") and v["n"] == t.get("n") and v.get("init") is not None:
+                    defs.append(_unctor(v["init"]))
+        if n.get("k") in ("bin", "opcall") and n.get("op") == "=":
+            lhs = n["lhs"] if n["k"] == "bin" else n["args"][0]
+            if lhs.get("k") == "var" and lhs.get("d") == t.get("d") and lhs["n"] == t["n"]:
+                defs.append(_unctor(n["rhs"] if n["k"] == "bin" else n["args"][1]))
+    return defs
+
+
 def r8(ctx, r):
     fb = ctx.fb()
     f = fb.func("iora::network::ITransport::connectSyncCancellable")
-    calls = [e for e in f.stmts() if e.node.get("k") == "mcall" and last(e.node.get("callee", "")) == "connectSync"]
-    if len(calls) < 1:
+    atts = _attempts(fb, f)
+    if len(atts) < 1:
         raise AnalysisBroken("connectSyncCancellable no longer calls connectSync")
+    sites = [a[0] for a in atts]
     vocab = Vocab(["cancelled"])
 
     def leaf(n):
@@ -702,37 +837,34 @@ def r8(ctx, r):
 
     def eff(e):
         # the token can be cancelled at any time: knowledge lasts until the next blocking call
-        if e.kind == "stmt" and e in calls:
+        if e.kind == "stmt" and any(e is x for x in sites):
             return [("havoc", "cancelled")]
         return None
-    pa = PredAbs(f, vocab, leaf, eff)
-    for c in calls:
+    pa = PredAbs(f, vocab, _pure_bool_lambdas(fb, f, leaf), eff, track_bools=True)
+
+    def bounded(g, t, site, depth=0):
+        """the duration expression t of function g is min(<something>, <a constant polling interval>): the constant operand is what bounds
+        the time to the next token test; it is recognised by its value (a literal, or a const local initialised from one), not by its name"""
+        t = _unctor(t)
+        if t is None or depth > 3:
+            return False
+        if t.get("k") == "call" and t.get("callee") == "std::min" and len(t.get("args", [])) >= 2:
+            return sum(1 for a in t["args"][:2] if _const_duration(g, a) is not None) == 1
+        if t.get("k") == "var" and t.get("parm") is not None and g is not f and site is not None:
+            # a parameter of the local lambda: what each invocation passes (evaluated in the enclosing function)
+            args = [a for a in site.get("args", [])[1:] if not a.get("def")]
+            return t["parm"] < len(args) and bounded(f, args[t["parm"]], None, depth + 1)
+        if t.get("k") == "var" and t.get("parm") is None:
+            defs = _defs_of(g, t)
+            return bool(defs) and all(bounded(g, d, site, depth + 1) for d in defs)
+        return False
+    for (site, g, c, sn) in atts:
         r.instance()
-        r.expect(pa.entails(c, Not(A("cancelled"))), f, c, "connect without cancel test",
+        r.expect(pa.entails(site, Not(A("cancelled"))), f, site, "connect without cancel test",
                  "connectSync is started without the cancellation token having been tested since the previous blocking call: a cancelled caller still opens a connection",
-                 okdesc="isCancelled() tested before connectSync at line %s" % c.line)
+                 okdesc="isCancelled() tested before connectSync at line %s" % site.line)
         r.instance()
-        t = _unctor(c.node["args"][-1])
-        init = None
-        if t is not None and t.get("k") == "var":
-            defs = []
-            for e in f.stmts():
-                n = e.node
-                if n.get("k") == "decl":
-                    for v in n["vars"]:
-                        if v["n"] == t["n"] and v.get("init") is not None:
-                            defs.append(_unctor(v["init"]))
-                if n.get("k") in ("bin", "opcall") and n.get("op") == "=":
-                    lhs = n["lhs"] if n["k"] == "bin" else n["args"][0]
-                    if lhs.get("k") == "var" and lhs["n"] == t["n"]:
-                        defs.append(_unctor(n["rhs"] if n["k"] == "bin" else n["args"][1]))
-            # min(<what is left of the caller's timeout>, <a constant polling interval>): the constant operand is what bounds the time to
-            # the next token test; it is recognised by its value (a literal, or a const local initialised from one), not by its name
-            ok = bool(defs) and all(d is not None and d.get("k") == "call" and d.get("callee") == "std::min" and len(d.get("args", [])) >= 2 and
-                                    sum(1 for a in d["args"][:2] if _const_duration(f, a) is not None) == 1 for d in defs)
-        else:
-            ok = False
-        r.expect(ok, f, c, "unbounded sub-wait", "the timeout handed to connectSync is not min(remaining, subInterval): cancellation is not observed within the polling interval",
+        r.expect(bounded(g, c.node["args"][-1], sn), g, c, "unbounded sub-wait", "the timeout handed to connectSync is not min(remaining, subInterval): cancellation is not observed within the polling interval",
                  okdesc="sub-timeout = min(remaining, subInterval)")
 
 
@@ -741,7 +873,10 @@ def r9(ctx, r):
     fb = ctx.fb()
     for fname in ("iora::network::ITransport::connectSyncCancellable",):
         f = fb.func(fname)
-        calls = [e for e in f.stmts() if e.node.get("k") == "mcall" and last(e.node.get("callee", "")) == "connectSync"]
+        # attempt sites: direct connectSync calls and invocations of a local lambda that makes the call (_attempts)
+        calls = [a[0] for a in _attempts(fb, f)]
+        if not calls:
+            raise AnalysisBroken("%s no longer calls connectSync" % last(fname))
         vocab = Vocab(["isok", "attempted"])
 
         def leaf(n):
@@ -753,12 +888,12 @@ def r9(ctx, r):
         closes = [e for e in f.stmts() if e.node.get("k") == "mcall" and last(e.node.get("callee", "")) == "close"]
 
         def eff(e):
-            if e in calls:
+            if any(e is x for x in calls):
                 return [("havoc", "isok"), ("set", "attempted", True)]
             if e in closes:
                 return [("set", "isok", False)]
             return None
-        pa = PredAbs(f, vocab, leaf, eff, init=And(Not(A("attempted")), Not(A("isok"))))
+        pa = PredAbs(f, vocab, _pure_bool_lambdas(fb, f, leaf), eff, init=And(Not(A("attempted")), Not(A("isok"))))
         for ret in common.returns(f):
             v = strip_wrappers(ret.node.get("v")) if ret.node.get("v") else None
             while v is not None and v.get("k") == "ctor" and len(v.get("args", [])) == 1:
